@@ -80,6 +80,16 @@ def secure_models(prog):
 
 
 def run(ctx):
+    _run(ctx)
+    r8 = ctx.rule('R8', 'the caller identity every scoped query uses is the '
+                  'context built from this request and removed after it',
+                  'GD')
+    from mstatic.rules import authhook
+    authhook.request_context(ctx, r8)
+    authhook.auth_hook(ctx, r8)
+
+
+def _run(ctx):
     prog = ctx.prog
     sec = secure_models(prog)
     dbfuncs = [f for f in prog.funcs_in_module(DB) if f.parent is None]
